@@ -1037,18 +1037,52 @@ func c20r4(p *Program, r *Report) {
 		if cf == nil {
 			continue
 		}
-		cinfo := cf.Pkg.TypesInfo
 		found := false
-		ast.Inspect(cf.Decl.Body, func(x ast.Node) bool {
-			c, ok := x.(*ast.CallExpr)
-			if !ok || !isCallTo(cinfo, c, link.callee) {
+		// the call may sit in a private helper of the caller (cfg.hostDialer()): the error is then handed up along
+		// every call on the way
+		units := p.unitsOf(cf)
+		holds := map[*FuncInfo]bool{}
+		for _, u := range units {
+			uinfo := u.Pkg.TypesInfo
+			ast.Inspect(u.Decl.Body, func(x ast.Node) bool {
+				c, ok := x.(*ast.CallExpr)
+				if !ok || !isCallTo(uinfo, c, link.callee) {
+					return true
+				}
+				found = true
+				holds[u] = true
+				ok2, why := errorBranchReturnsErr(p, u, c)
+				r.Check(ok2, c, u.Name+" propagates the error of "+link.callee, "returned to the caller", u.Name+" drops the error of "+link.callee+" ("+why+")")
 				return true
+			})
+		}
+		for changed := true; changed; {
+			changed = false
+			for _, u := range units {
+				uinfo := u.Pkg.TypesInfo
+				for _, c := range callsIn(u.Decl.Body) {
+					h := p.FuncOf(calleeOf(uinfo, c))
+					if h == nil || !holds[h] || h == u {
+						continue
+					}
+					if !holds[u] {
+						holds[u] = true
+						changed = true
+					}
+				}
 			}
-			found = true
-			ok2, why := errorBranchReturnsErr(p, cf, c)
-			r.Check(ok2, c, link.caller+" propagates the error of "+link.callee, "returned to the caller", link.caller+" drops the error of "+link.callee+" ("+why+")")
-			return true
-		})
+		}
+		for _, u := range units {
+			uinfo := u.Pkg.TypesInfo
+			for _, c := range callsIn(u.Decl.Body) {
+				h := p.FuncOf(calleeOf(uinfo, c))
+				if h == nil || !holds[h] || h == u || h.Name == link.callee {
+					continue
+				}
+				ok2, why := errorBranchReturnsErr(p, u, c)
+				r.Check(ok2, c, u.Name+" propagates the error of "+link.callee+" (through "+h.Name+")", "returned to the caller", u.Name+" drops the error "+h.Name+" hands up from "+link.callee+" ("+why+")")
+			}
+		}
 		if !found {
 			r.Unresolved("%s does not call %s", link.caller, link.callee)
 		}
